@@ -9,8 +9,8 @@
    and the theorem  Permutation l l' -> f l = f l'.  The scheduler, the wall clock and the runtime's
    map order themselves cannot be exhibited by a Gallina model: that part is covered by the replay of
    one long history in several OS processes (harness/c17), i.e. by sampling. *)
-From Coq Require Import ZArith List Bool Permutation Sorted.
-From FxV Require Import model.M_NondetTypes model.M_NondetAllow gen.Gen_NondetSites model.M_Perm proofs.P_Perm.
+From Coq Require Import ZArith List Bool Permutation Sorted Lia.
+From FxV Require Import model.M_NondetTypes model.M_NondetAllow gen.Gen_NondetSites model.M_Perm proofs.P_Perm model.M_State proofs.P_State.
 Import ListNotations.
 Open Scope Z_scope.
 
@@ -81,6 +81,41 @@ Print Assumptions C17_delete_order.
 Theorem C17_membership : forall x l l', Permutation l l' -> member_of x l = member_of x l'.
 Proof. exact membership_order_irrelevant. Qed.
 Print Assumptions C17_membership.
+
+(* UpdateProposalOracles: the two address maps are only indexed *)
+Theorem C17_update_proposal_oracles : forall max_size all old old' new new',
+  Permutation old old' -> Permutation new new' ->
+  upo max_size all old new = upo max_size all old' new'.
+Proof. exact upo_order_irrelevant. Qed.
+Print Assumptions C17_update_proposal_oracles.
+
+(* pruneAttestations leaves exactly the attestations above the cut-off, whatever the deletion order *)
+Theorem C17_prune : forall keep last atts,
+  keep < last ->
+  (forall k, prune keep last atts k = if k <=? last - keep then None else present atts k) /\
+  (forall dels, Permutation dels (filter (fun n => n <=? last - keep) atts) ->
+     forall k, delete_all (present atts) dels k = prune keep last atts k).
+Proof.
+  intros keep last atts H. split.
+  - intro k. apply prune_spec. exact H.
+  - intros dels P k. unfold prune. destruct (last <=? keep) eqn:E; [apply Z.leb_le in E; lia|].
+    apply delete_order_irrelevant. exact P.
+Qed.
+Print Assumptions C17_prune.
+
+(* K_state: every write to process-level mutable state under x/ sits in a function that is only called while
+   the app is wired (finite check over the generated writer / caller lists), and the crosschain router's route
+   map — written by AddRoute, which panics once sealed; sealed by NewRouterKeeper before the router reaches block
+   execution — never changes after the seal *)
+Theorem C17_state_wiring_only : writers_wiring_only = true /\ router_facts = true.
+Proof. exact state_wiring_only. Qed.
+Print Assumptions C17_state_wiring_only.
+
+Theorem C17_router_frozen_after_seal : forall adds later r0 r1 r2,
+  rrun r0 adds = Some r1 -> rstep r1 RSeal = Some r2 -> forall r3, rrun r2 later = Some r3 ->
+  r_routes r3 = r_routes r1 /\ r_sealed r3 = true.
+Proof. exact router_lifecycle. Qed.
+Print Assumptions C17_router_frozen_after_seal.
 
 Theorem C17_nonvacuous :
   power_diff_sum ex_b ex_c = 8000000000 /\
